@@ -31,6 +31,8 @@ def main(argv=None):
         print(f'no check for {prop} (see MANIFEST.json not_applicable)')
         return 2
     os.environ['VERIF_ONLY'] = a.only
+    if a.limit:
+        os.environ['VERIF_PARTIAL'] = '1'
     return fn(prop, a.tier, seed, a.jobs, a.limit)
 
 
